@@ -30,6 +30,9 @@ func (g *gen) lit(t Type, d int) string {
 		return "[]byte(" + g.expr(TStr, d+1) + ")"
 	case TAny:
 		inner := []Type{TStr, TStr, TPS, TSlice, TPStr, TS, TMap}[g.intn(7, "anyinner")]
+		if g.typeOff(inner) {
+			inner = TPS
+		}
 		if inner != TStr && g.off("iface-boxes-ref") {
 			// known finding: a reference boxed in an interface and mutated afterwards is not tracked
 			inner = TStr
@@ -159,6 +162,9 @@ func (g *gen) derive(t Type, d int) string {
 	case TMap:
 		add(TPS, "field-map", func(v string) string { return v + ".M" })
 	case TS:
+		if g.p.Off["struct-value-copy"] {
+			break
+		}
 		add(TPS, "load-struct", func(v string) string { return "*" + v })
 		add(TE, "embedded-struct", func(v string) string { return v + ".S" })
 	case TPS:
